@@ -418,11 +418,8 @@ func HeaderedReverseTopologicalOrdering(events []PDU, order TopologicalOrder) []
 		unwrapped := events[i]
 		input[i] = unwrapped
 	}
-	result := make([]PDU, len(input))
-	for i, e := range r.reverseTopologicalOrdering(input, order) {
-		result[i] = e
-	}
-	return result
+	// The ordering returns each distinct event once, so it can be shorter than the input.
+	return r.reverseTopologicalOrdering(input, order)
 }
 
 func getCreateEvent(input []PDU) PDU {
